@@ -402,6 +402,10 @@ func nsWalkRules(c *Ctx, prop string) (*report.Result, error) {
 		checkTranslatedBlobProvenance(c, res, "O12.10")
 		res.RuleDoc["O12.11"] = "every blob of a repeated field is looked into: no path through translateDataBlobs' loop goes on to the next element without calling translateOneDataBlob"
 		checkEveryBlobTranslated(c, res, "O12.11")
+		res.RuleDoc["O12.13"] = "a message is mapped once on its way through a deployment: in InterceptStream the translating wrapper is put around a stream only on the false side of IsIntraProxy(stream context) and intra-proxy streams are handed to the handler as they are - both listeners of a multi-node deployment carry the translation interceptor, so a message that crosses an intra-proxy hop would be mapped twice (a swapped pair comes back untranslated, a chain lands on the wrong name)"
+		checkIntraProxyStreamsNotTranslated(c, res, "O12.13")
+		res.RuleDoc["O12.14"] = "a decoded history blob is always handed to the visitor (same analysis as O13.14)"
+		checkDecodedBlobAlwaysWalked(c, res, "O12.14")
 		res.RuleDoc["O12.12"] = "performance short cuts never change the result: translatorImpl.TranslateRequest / TranslateResponse hand every message, whole, to the visitor - no return is reachable without the call of the receiver's visitor field on the method's own message (a content-based fast path in front of the walk is wrong for every message that names a second namespace further down)"
 		checkTranslatorAlwaysVisits(c, res, "O12.12", []string{"translatorImpl"})
 		res.RuleDoc["O12.9"] = "a translated blob replaces the original as a whole: after translateOneDataBlob / translateDataBlobs reported a match or a change, no path of visitDataBlobs reaches a return without visit.Assign of the returned blob (same analysis as O17.4) - the re-serialized blob carries its own encoding label, so copying only its bytes into the old blob leaves a JSON-labelled blob holding proto3 bytes, which the receiving cluster cannot decode"
